@@ -395,7 +395,11 @@ func (s *Translator) buildTraversalPatternRoot(partFrame *Frame, traversalStep *
 		}
 	)
 
-	if traversalStep.LeftNodeBound {
+	// A self-loop on a node that no earlier frame exports, e.g. (u)-[]->(u), marks whichever endpoint is
+	// visited second as bound although nothing materializes it yet.
+	unboundSelfLoop := isUnboundSelfLoop(traversalStep) && (traversalStep.LeftNodeBound || traversalStep.RightNodeBound)
+
+	if traversalStep.LeftNodeBound && !unboundSelfLoop {
 		if partFrame.Previous == nil {
 			return pgsql.Query{}, fmt.Errorf("left node is marked as bound but there is no previous frame to reference")
 		}
@@ -426,11 +430,11 @@ func (s *Translator) buildTraversalPatternRoot(partFrame *Frame, traversalStep *
 				},
 			}},
 		})
-	} else if traversalStep.RightNodeBound && partFrame.Previous == nil {
+	} else if unboundSelfLoop || (traversalStep.RightNodeBound && partFrame.Previous == nil) {
 		// Self-referential pattern: the right node reuses the left node's variable (e.g. (u)-[]->(u)).
-		// There is no previous frame to promote as a FROM source. Join only the left node table and
-		// push the right-node join condition into WHERE so that start_id and end_id both reference
-		// the same node.
+		// No previous frame materializes the node, so there is no frame to promote as the JOIN root. Join
+		// only the left node table and push the right-node join condition into WHERE so that start_id and
+		// end_id both reference the same node. An earlier frame, if valid, is comma-joined.
 		leftJoinLocal, leftJoinExternal := partitionConstraintByLocality(
 			traversalStep.LeftNodeConstraints,
 			pgsql.AsIdentifierSet(traversalStep.LeftNode.Identifier, traversalStep.Edge.Identifier),
@@ -465,6 +469,10 @@ func (s *Translator) buildTraversalPatternRoot(partFrame *Frame, traversalStep *
 		// both endpoints reference the same node binding.
 		nextSelect.Where = pgsql.OptionalAnd(traversalStep.RightNodeJoinCondition, nextSelect.Where)
 		nextSelect.Where = pgsql.OptionalAnd(leftJoinExternal, nextSelect.Where)
+
+		// With an earlier frame the node counts as bound when it is visited the second time, and its kind and
+		// property constraints arrive as right node constraints. Their local part is not joined anywhere else.
+		nextSelect.Where = pgsql.OptionalAnd(rightJoinLocal, nextSelect.Where)
 	} else if traversalStep.RightNodeBound {
 		// Right node was already materialized in a previous frame.
 		//
